@@ -463,6 +463,10 @@ class Result:
         self.ubsan = []
         self.infra = None
         self.outputs = []       # per executed op: list of output lines (for differential oracles)
+        self.snaps = []
+        self.rawlines = []      # (resolved input line, live ids after it)
+        self.stray_at = None
+        self.stray_silent = None
 
 
 def forge(tag, how, w, cid):
@@ -498,8 +502,9 @@ def forge(tag, how, w, cid):
 class Exec:
     """Runs ops against one simhost with the World model attached."""
 
-    def __init__(self, cfg, leaks=False, tag="p", keep_transcript=True, env=None, prop="C10"):
+    def __init__(self, cfg, leaks=False, tag="p", keep_transcript=True, env=None, prop="C10", snap=False):
         self.prop = prop
+        self.snap = snap
         self.cfg = json.loads(json.dumps(cfg))
         self.scratch = H.new_scratch(tag)
         self.conf = os.path.join(self.scratch, "iauthd.conf")
@@ -620,6 +625,8 @@ class Exec:
         if c is None:
             self.res.ops.append({"skipped": op})
             self.res.outputs.append(None)
+            if self.snap:
+                self.res.snaps.append(self.res.snaps[-1] if self.res.snaps else None)
             return True
         e = self.w.begin(c)
         try:
@@ -639,7 +646,20 @@ class Exec:
             return False
         self.w.end(e, lines)
         self.log(k, c.get("line", {kk: vv for kk, vv in c.items() if kk != "op"}), lines)
+        if op.get("stray"):
+            self.res.stray_at = len(self.res.outputs)
+            self.res.stray_silent = bool(e["silent"])
         self.res.outputs.append(lines)
+        if "line" in c:
+            self.res.rawlines.append((c["line"], sorted(self.w.live)))
+        if self.snap:
+            w = self.w
+            self.res.snaps.append({
+                "live": sorted(w.live),
+                "prev": sorted(set(i.cid for i in w.all if i.ended is not None and i.tag)),
+                "await": sorted((i.cid, s) for i in w.live.values() for s, a in i.awaiting.items() if a),
+                "answered": sorted((i.cid, s) for i in w.live.values() for s, a in i.awaiting.items() if not a),
+                "tagged": sorted(i.cid for i in w.live.values() if i.tag)})
         self.res.steps += 1
         if getattr(self, "stop_quietly", False) and not self.w.viol and not self.h.dead:
             # an accidentally valid damaged file is now in force; the protocol
@@ -869,7 +889,7 @@ def run_generated(rnd, opts=None, leaks=False, tag="p"):
     """Generate online and execute.  Returns (plan, result)."""
     opts = opts or {}
     cfg = opts.get("cfg") or gen_cfg(rnd, opts)
-    ex = Exec(cfg, leaks=leaks, tag=tag, prop=opts.get("prop", "C10"))
+    ex = Exec(cfg, leaks=leaks, tag=tag, prop=opts.get("prop", "C10"), snap=opts.get("snap", False))
     ops = []
     if ex.res.infra:
         res = ex.finish()
